@@ -2,16 +2,21 @@
 import sup
 
 RULE = ("one case = one builder input x target version: texture/model/WMO name lists (0..n, shared directory prefixes, prefix stems, duplicates, mixed-case "
-        "extensions, non-ASCII, 180-300 byte names), doodad/WMO placements, 0 / 1 / 17 / 256 / arbitrary 2..255 MCNK chunks whose 11 optional sub-chunks "
-        "(MCVT MCNR MCLY MCRF MCAL MCSH MCLQ MCCV MCSE MCLV MCBB) follow a covering array (pairwise quick, 3-wise thorough) plus random patterns, MH2O on arbitrary "
+        "extensions, 2-/3-/4-byte UTF-8 characters (byte length != character count; one isolated case per version puts such names in front of ASCII ones in every list), 180-300 byte names), doodad/WMO placements, 0 / 1 / 17 / 256 / arbitrary 2..255 MCNK chunks whose 11 optional sub-chunks "
+        "(MCVT MCNR MCLY MCRF MCAL MCSH MCLQ MCCV MCSE MCLV MCBB) follow a covering array (pairwise quick, 3-wise thorough) plus random patterns, MCLQ height ranges "
+        "sloped / perfectly level (min == max) / sea level 0,0 / the widest accepted range -10000..10000, MH2O on arbitrary "
         "chunk subsets (1..3 instances, 4 vertex formats, bitmaps, attributes), MFBO, MTXF, MAMP, MTXP, blend mesh, x VanillaEarly..MoP; tile-level axes "
         "(version, MCNK count, names, placements, 6 root toggles masked by what the version can carry) come from a pairwise covering array + random points + "
         "18 kinds of deliberately invalid input (tallied 'rejected' when the builder refuses them; compared like any other when it accepts them). "
         "Oracle: (a) P(parse(to_bytes(build(b)))) == P(b) field by field (supplied MCNK by index; nothing is required of auto-generated filler chunks but framing); "
-        "(b) for rounds 1..4: x' = to_bytes(from_root_adt(parse(x))) parses to the same P and len(x') <= len(x); (c) an independent walker on every produced file: "
+        "(b) for rounds 1..4: x' = to_bytes(from_root_adt(parse(x))) parses to the same P and len(x') <= len(x); (e) parse -> modify -> rebuild: on the parsed tile "
+        "1..6 terrain chunks are edited (drop one present sub-chunk / add one absent / new random pattern / same pattern with new contents, the parsed header with its now "
+        "stale offsets, sizes and counts left in place; the all-sub-chunks isolated case drops each of the 11 kinds from one chunk each) and each present root-optional "
+        "chunk is removed with probability 1/3, then to_bytes(from_root_adt(edited)) must parse to P(edited) and pass the walker; (c) an independent walker on every produced file: "
         "top-level framing tiles the file, MCNK sub-chunk framing tiles every MCNK payload behind the 128-byte header, every MHDR slot (relative to MHDR data) and "
         "every MCNK header slot (relative to chunk start) points at a chunk of the named type (and is not 0 while such a chunk exists), every used MCIN "
-        "(offset,size) pair points at a distinct MCNK whose size agrees. distinct = distinct (version, MCNK-count class, root-optional pattern, names class, "
+        "(offset,size) pair points at a distinct MCNK whose size agrees, every MMID / MWID entry is the byte offset of the start of a name inside MMDX / MWMO and entry i "
+        "resolves to name i of the list the file was written from. distinct = distinct (version, MCNK-count class, root-optional pattern, names class, "
         "placement class, validity kind) tuples whose build succeeded; rejected inputs are trivial.")
 
 ASSUME = [
